@@ -1,6 +1,7 @@
 package props
 
 import (
+	"os"
 	"sync"
 	"time"
 
@@ -42,3 +43,5 @@ func withGateway(gw *protocol.Gateway, f func() *Violation) *Violation {
 	_ = idle
 	return nil
 }
+
+func getenv(k string) string { return os.Getenv(k) }
